@@ -226,6 +226,15 @@ theorem srcChunks_sum (cfg : Config) (hv : cfg.Valid) (src : Bytes) :
     ((srcChunks cfg src).map List.length).sum = src.length := by
   rw [← List.length_flatten, srcChunks_flatten cfg hv]
 
+theorem srcChunks_inj (H : Bytes → Bytes) (cfg : Config) (src : Bytes)
+    (hinj : ∀ c1 ∈ chunkAll cfg src, ∀ c2 ∈ chunkAll cfg src,
+      H (slice src c1.1 c1.2) = H (slice src c2.1 c2.2) → slice src c1.1 c1.2 = slice src c2.1 c2.2) :
+    ∀ x ∈ srcChunks cfg src, ∀ y ∈ srcChunks cfg src, H x = H y → x = y := by
+  intro x hx y hy h
+  obtain ⟨c1, h1, rfl⟩ := List.mem_map.mp hx
+  obtain ⟨c2, h2, rfl⟩ := List.mem_map.mp hy
+  exact hinj c1 h1 c2 h2 h
+
 theorem sum_map_pointwise {α β : Type} (l1 : List α) (l2 : List β) (f : α → Nat) (g : β → Nat)
     (hlen : l1.length = l2.length)
     (h : ∀ i (h1 : i < l1.length) (h2 : i < l2.length), f l1[i] = g l2[i]) :
@@ -246,16 +255,13 @@ def codecOf (o : CompressOpts) (comp : Bytes → Bytes) : Bytes → Bytes :=
 section
 variable (H : Bytes → Bytes) (writer : String) (comp : Bytes → Bytes) (o : CompressOpts) (src : Bytes)
 
-/-- The unique chunks. -/
-def uniqOf : List Bytes := (dedup H (srcChunks o.cfg src)).1
-
 theorem dict_stored :
-    (dictionaryOf H writer comp o src).2 = (uniqOf H o src).map (storedBytes writer (codecOf o comp)) := rfl
+    (dictionaryOf H writer comp o src).2 = (dedup H (srcChunks o.cfg src)).1.map (storedBytes writer (codecOf o comp)) := rfl
 
 theorem dict_order : (dictionaryOf H writer comp o src).1.rebuildOrder = (dedup H (srcChunks o.cfg src)).2 := rfl
 
 theorem dict_descr : (dictionaryOf H writer comp o src).1.chunkDescriptors =
-    descrFrom H o.hashLen (storedBytes writer (codecOf o comp)) 0 (uniqOf H o src) := by
+    descrFrom H o.hashLen (storedBytes writer (codecOf o comp)) 0 (dedup H (srcChunks o.cfg src)).1 := by
   rw [← descriptorsOf_eq]; rfl
 
 theorem dict_total : (dictionaryOf H writer comp o src).1.sourceTotalSize = src.length := rfl
